@@ -155,11 +155,16 @@ HashSetOK(xs, r) == IntIs(r, Cardinality({WNorm(xs[i]) : i \in 1..Len(xs)}))
 \* ---------------------------------------------------------------- C05: parsing
 IsErr(r) == "err" \in DOMAIN r
 \* text: code points (or bytes; every grammar character is ASCII, so a byte string is a numeral iff it is one as text)
-ParseOK(text, radix, validUtf8, r) ==
-  IF radix # 10 \/ ~validUtf8 THEN Chk(IsErr(r), "must-be-error")
+\* (growth beyond C05) the class of the error value: parse_bytes reports None, the others the class the mechanism predicts
+ErrKindOK(api, expected, r) ==
+  IsErr(r) /\ (IF api \in {"parse_bytes", "parse_bytes_radix"} THEN r.err = "None" ELSE r.err = expected)
+ParseOK(api, text, radix, validUtf8, r) ==
+  IF ~validUtf8 THEN Chk(IsErr(r), "must-be-error")
+  ELSE IF radix # 10 THEN Chk(ErrKindOK(api, "Other", r), "must-be-error")
   ELSE IF IsNumeral(text)
        THEN (IF ~IsD(r) THEN Bad("numeral-rejected") ELSE Chk(WOf(r.d) = ParseValue(text), "parsed-value"))
-       ELSE Chk(IsErr(r), "non-numeral-accepted-or-panic")
+       ELSE IF ~IsErr(r) THEN Bad("non-numeral-accepted-or-panic")
+       ELSE Chk(ErrKindOK(api, AlgoErrKind(text), r), "error-class")
 
 \* ---------------------------------------------------------------- C04: every rendering parses back
 HasExpMarker(t) == EPos(t) # 0
@@ -192,6 +197,15 @@ FmtOK(kind, a, r, c) ==
   IF ~Renders(r) THEN Bad("outcome-kind")
   ELSE IF ~ReadBack(r.t, r.rp) THEN Bad("output-does-not-read-back")
   ELSE Chk(FmtRelOK(kind, a, r.t, c), "reparsed-decimal-differs")
+
+\* {:#?} : BigDecimal("<unscaled integer>e<-scale>")  - the representation, readable back through the parser
+DbgPrefix == <<66, 105, 103, 68, 101, 99, 105, 109, 97, 108, 40, 34>>        \* BigDecimal("
+DbgSuffix == <<34, 41>>                                                       \* ")
+DebugAltOK(a, r) ==
+  IF "t" \notin DOMAIN r THEN Bad("outcome-kind")
+  ELSE LET want == DbgPrefix \o (IF a.s < 0 THEN <<cMinus>> ELSE <<>>) \o DigitsText(a.d) \o <<ce>> \o ZText(ZNeg(a.z)) \o DbgSuffix
+           inner == SubSeq(r.t, Len(DbgPrefix) + 1, Len(r.t) - 2)
+       IN Chk(r.t = want /\ (FitsI64(ZNeg(a.z)) => IsNumeral(inner) /\ ParseValue(inner) = a), "debug-representation")
 
 \* ---------------------------------------------------------------- C16: precision formatting and flags
 W(x) == WMk(x.s, x.d, ZOfInt(x.sc))
